@@ -120,7 +120,7 @@ class XtcePacketDefinition(common.AttrComparable):
                 _update_caches(sequence_container)
 
         self.ns = ns  # Default ns dict used when creating XML elements
-        self.xtce_schema_uri = ns[xtce_ns_prefix] if ns else None  # XTCE schema URI
+        self.xtce_schema_uri = ns.get(xtce_ns_prefix) if ns else None  # XTCE schema URI (None: no namespace)
         self.xtce_ns_prefix = xtce_ns_prefix
         self.root_container_name = root_container_name
         self.space_system_name = space_system_name
